@@ -77,7 +77,7 @@ def check_paths(F, paths, unit_lens, kind, reg, values, n_prefix):
 
 def inversion(chk, F, which, rule_prefix='inversion', kinds=('7bit', 'increment', 'decrement', '14bit')):
     cfg = F.cfg
-    model, spec, P = scanners.product(F, which)
+    model, spec, P, allp = scanners.product(F, which)
     for key in P.order:
         cs, ss, cons0, label = P.pairs[key]
         for kind in kinds:
@@ -88,7 +88,7 @@ def inversion(chk, F, which, rule_prefix='inversion', kinds=('7bit', 'increment'
                     cons = dict(cons0)
                     vmax = 16383 if kind == '14bit' else 127
                     v1, v2 = val_tok(1), val_tok(2)
-                    cons.update({CH: VS(0, 15), NUM: VS(0, 16383), v1: VS(0, vmax), v2: VS(0, vmax)})
+                    cons.update({CH: VS.one(0), NUM: VS(0, 16383), v1: VS(0, vmax), v2: VS(0, vmax)})
                     u1, u2 = unit_msgs(kind, v1, cons), unit_msgs(kind, v2, cons)
                     msgs = number_msgs(reg, cons) + u1 + u2
                     paths = seq.run_sequence(F, model, P.roles, cs, cons, msgs)
